@@ -30,6 +30,36 @@ class Boom(Exception):
     pass
 
 
+# the injected exception is of one of these classes (chosen per program by its name): a stepper must hand on whatever the
+# user function raised, also when it is of a class the stepper itself catches somewhere (KeyError, ValueError, ...)
+class BoomKey(Boom, KeyError):
+    pass
+
+
+class BoomValue(Boom, ValueError):
+    pass
+
+
+class BoomAttr(Boom, AttributeError):
+    pass
+
+
+class BoomType(Boom, TypeError):
+    pass
+
+
+class BoomRuntime(Boom, RuntimeError):
+    pass
+
+
+BOOMS = [Boom, BoomKey, BoomValue, BoomAttr, BoomType, BoomRuntime]
+
+
+def boom_for(prog):
+    import zlib
+    return BOOMS[zlib.crc32((prog.get("name") or "").encode()) % len(BOOMS)]
+
+
 def uniquify_calls(prog):
     """Give every call site its own function name.  Returns (prog', sites)
     where sites maps function name -> nres."""
@@ -145,7 +175,7 @@ def run_backend(ex, kind, prog, dag, cls, builders, sites, K, m_after, k, concre
     """Returns None (no failure on this path / all fine) or a problem string."""
     names = backends.program_persistent_names(prog)
     counter = [0]
-    boom = Boom("injected")
+    boom = boom_for(prog)("injected")
     failed = []
     kk = k if concrete is None else conc_k
     funcs = make_funcs(sites, counter, kk, boom, failed) if concrete is None else \
@@ -172,9 +202,13 @@ def run_backend(ex, kind, prog, dag, cls, builders, sites, K, m_after, k, concre
         caught = e
     except (symx.Abort, symx.Unmodelled, symx.BudgetExceeded):
         raise
-    except (ZeroDivisionError, OverflowError, IndexError):
-        raise symx.Abort()
     except Exception as e:  # noqa
+        if failed:
+            # the fault WAS injected, and something else came out of run()
+            return "%s: the user function raised %s, the caller of the stepper received %s: %s" % (
+                kind, type(boom).__name__, type(e).__name__, str(e)[:80])
+        if isinstance(e, (ZeroDivisionError, OverflowError, IndexError)):
+            raise symx.Abort()
         # a program-level error (raise_) or another failure before the fault: not this property's subject
         return None
     if caught is None:
